@@ -413,6 +413,10 @@ def run(chk):
 
     # ---- the bracket that makes ids revert (shared with C03) -------------------------------------------------------------------
     c03.bracket_rules(chk, P, "C04")
+    # "a span rejected by the filter contributes no ids": the disabled frame is open_push(Empty) on every Ctxt, also
+    # through wrappers and the type-erased bridge the global runtime uses (shared with C03)
+    c03.open_disabled_rule(chk, P, "C04")
+    c03.ctxt_forwarding(chk, P, "C04", 28)
 
     def who_may():
         bad = []
